@@ -207,7 +207,7 @@ var matcherSpecs = []matcherSpec{
 }
 
 // characters that matter to HTML plus the two non-ASCII characters Go's (?i) folds into ASCII
-var hostileRunes = []string{"<", ">", "\"", "'", "=", "`", "&", ";", "%", "\x00", "\x7f", "\u00a0", "\n", " ", "\u017f", "\u212a", "$", "\x1b"}
+var hostileRunes = []string{"<", ">", "\"", "'", "=", "`", "&", ";", "%", "\x00", "\x7f", "\u00a0", "\n", " ", "\u017f", "\u212a", "$", "\x1b", "|", "{", "}", "(", ")", "[", "]", "*", "+", "?", "^", ".", ",", "\\", "/", "-", ":", "#", "@", "~", "!"}
 
 func matcherAlphabet(ms matcherSpec) []string {
 	seen := map[string]bool{}
